@@ -343,8 +343,20 @@ ShapeNo == IF mode.uniform
            THEN LET sq == SetToSeq(ModeShapes) IN CHOOSE i \in 1..Len(sq) : sq[i] = shape
            ELSE FoldSet(LAMBDA f, acc : acc + f * (3 * FoldSet(LAMBDA n, a : a + n, 0, MSizeLens(Subs(f), para[f].recs))
                                                      + Len(para[f].recs)), 0, DOMAIN para)
+\* (a checksum of the history, so that the sample of a mode with histories is spread over the paths)
+StrCode(x) == CASE x = Apt -> 1 [] x = Dak -> 2 [] x = "-" -> 3 [] x = "Release" -> 4 [] x = "PdiffIndex" -> 5
+                [] x = "Changes" -> 6 [] x = "Dsc" -> 7 [] OTHER -> 8
+OpCode(e) == CASE e[1] = "dump" -> 1
+               [] e[1] = "append"  -> 10 + e[2] + e[3][2][2]
+               [] e[1] = "setsize" -> 20 + 3 * e[2] + 7 * e[3] + e[4][2]
+               [] e[1] = "assign"  -> 40 + e[2] + 5 * Len(e[3]) + e[3][1][2][2]
+               [] e[1] = "delete"  -> 50 + e[2]
+               [] e[1] = "setbeh"  -> 60 + StrCode(e[2])
+               [] e[1] = "other"   -> 70 + 3 * StrCode(e[2]) + StrCode(e[3])
+               [] OTHER -> 90
+HistSum  == FoldSeq(LAMBDA e, acc : (acc * 31 + OpCode(e)) % 8191, 0, hist)
 Sampled  == \/ mode.emitmod = 1
-            \/ (((MMask(DOMAIN para) * 7919) % 8191) + ShapeNo + 5 * Len(hist) + EmitOff) % mode.emitmod = 0
+            \/ (((MMask(DOMAIN para) * 7919) % 8191) + ShapeNo + HistSum + EmitOff) % mode.emitmod = 0
 Selected == IF mode.maxmut > 0
             THEN (nmut = mode.maxmut \/ DOMAIN para = {}) /\ Sampled
             ELSE \/ NFields > 4 /\ (Cardinality(DOMAIN para) <= 1 \/ Cardinality(DOMAIN para) >= NFields - 1)
@@ -581,7 +593,7 @@ Mode(name, configs, shapes, uniform, maxf, heavy, emitmod) ==
 
 ShapesSubsetsQuick == {Sh("multi", <<17, 2>>), Sh("single", <<5>>)}
 ShapesSubsetsP1    == {Sh("multi", <<12>>)}
-ShapesSubsetsP     == {Sh("multi", <<18>>), Sh("multi", <<3, 10>>), Sh("multi", <<17, 2>>), Sh("single", <<5>>)}
+ShapesSubsetsP     == {Sh("multi", <<3, 10>>), Sh("multi", <<17, 2>>), Sh("single", <<5>>)}
 ShapesSubsets      == {Sh("multi", <<1>>), Sh("multi", <<18>>), Sh("multi", <<3, 10>>), Sh("multi", <<17, 2>>),
                        Sh("multi", <<16, 16>>), Sh("single", <<5>>), Sh("single", <<17>>), ShDup(<<4, 4>>)}
 \* sizes beyond 18 digits: 2^31 and 2^32 have 10 digits, 2^63 and 10^18 have 19
@@ -628,7 +640,7 @@ ModesThorough ==
     XMode("alias",   AllConfigs,   ShapesAlias,        FALSE, 1,  TRUE,  2, 2, {1, 7}, 4, {"setsize", "append", "delete"}, {"parsed", "built"}, {}),
     XMode("live",    LiveConfigs \cup {<<"Changes", "-">>}, ShapesLive, FALSE, 1, TRUE, 3, 2, {7}, 1, LiveKindsT, {"built", "parsed"}, LiveOthersT) }
 ModesThoroughP ==
-  { Mode("subsetsP", PdiffConfig,  ShapesSubsetsP,     TRUE,  14, TRUE,  4) }
+  { Mode("subsetsP", PdiffConfig,  ShapesSubsetsP,     TRUE,  14, TRUE,  3) }
 \* negative controls (small)
 ModesNegIterate   == { Mode("neg", AllConfigs,      ShapesSubsetsQuick, TRUE, 2, TRUE, 1) }
 ModesNegIterateOk == { Mode("neg", NoLookupConfigs, ShapesSubsetsQuick, TRUE, 4, TRUE, 1) }
